@@ -64,10 +64,14 @@ class Tr:
                 return sc[name]
         return None
     def bind_var(self, name, ty):
+        if name.startswith("self_") or name in ("self", "vec", "Vec"):
+            raise Unsupported("a local named %s" % name)
         slot = self.nvar; self.nvar += 1
         self.scopes[-1][name] = ("var", slot, ty)
         return slot
     def bind_arr(self, name):
+        if name.startswith("self_") or name in ("self", "vec", "Vec"):
+            raise Unsupported("a local named %s" % name)
         slot = self.narr; self.narr += 1
         self.scopes[-1][name] = ("arr", slot)
         return slot
@@ -110,10 +114,15 @@ class Tr:
             self.eat(); ty = self.eat()
             if ty not in WIDTH:
                 raise Unsupported("cast to " + ty)
+            if isinstance(ta, tuple):
+                raise Unsupported("`as` after .into()")
             if ta is not None and WIDTH[ty] < WIDTH[ta]:
                 a = "Expr.cast %d (%s)" % (WIDTH[ty], a)
             elif ta is None:
-                pass                                  # a literal takes the type
+                # only a single literal that fits takes the type; an untyped constant EXPRESSION is an i32 computation in Rust
+                m = re.fullmatch(r"Expr\.lit (\d+)", a)
+                if not m or int(m.group(1)) >= 1 << WIDTH[ty]:
+                    raise Unsupported("`as %s` applied to an untyped constant expression" % ty)
             ta = ty
         return a, ta
     def postfix(self):
@@ -316,7 +325,9 @@ class Tr:
             self.eat("("); a, ta = self.expr(); self.eat(")")
             while self.peek() == "as":
                 self.eat(); ty = self.eat()
-                if ta is not None and not isinstance(ta, tuple) and WIDTH[ty] < WIDTH[ta]: a = "Expr.cast %d (%s)" % (WIDTH[ty], a)
+                if ty not in WIDTH or ta is None or isinstance(ta, tuple):
+                    raise Unsupported("`as %s` on a parenthesised range bound of unknown type" % ty)
+                if WIDTH[ty] < WIDTH[ta]: a = "Expr.cast %d (%s)" % (WIDTH[ty], a)
                 ta = ty
             return a, ta
         return self.cast()
@@ -332,8 +343,9 @@ def fold_self(toks):
     return out
 
 def struct_fields(text, sname):
-    m = re.search(r"struct\s+%s\s*\{(.*?)\}" % re.escape(sname), text, re.S)
-    if not m: raise Unsupported("struct %s not found" % sname)
+    ms = list(re.finditer(r"\bstruct\s+%s\b\s*\{(.*?)\}" % re.escape(sname), text, re.S))
+    if len(ms) != 1: raise Unsupported("%d definitions of struct %s" % (len(ms), sname))
+    m = ms[0]
     out = []
     for part in m.group(1).split(","):
         part = part.strip()
@@ -382,19 +394,28 @@ def translate_fn(repo, rel, fname, const_names, self_struct=None, scalar=False):
     try:
         params = params_of(m.group(1))
         if self_struct:
-            params += struct_fields(text, self_struct)
+            fields = dict(struct_fields(text, self_struct))
+            # Rust binds fields by NAME: the slots are fixed by this table (the order the theorems instantiate), not by the declaration order
+            want = SELF_FIELDS[self_struct]
+            if set(fields) != set(n for n, _ in want) or any(fields[n] != t for n, t in want):
+                raise Unsupported("fields of %s are %s, expected %s" % (self_struct, sorted(fields.items()), want))
+            params += want
         consts = {}
         c = gc.Consts()
         for n in const_names:
-            mm = re.search(r"const\s+%s\s*:\s*(\w+)\s*=" % n, text)
+            mms = list(re.finditer(r"\bconst\s+%s\s*:\s*(\w+)\s*=" % n, text))
+            if len(mms) > 1: raise Unsupported("%d definitions of the constant %s" % (len(mms), n))
+            mm = mms[0] if mms else None
             if mm and mm.group(1) in WIDTH:
                 try: consts[n] = (c.scalar(text, n, rel), mm.group(1))
                 except gc.Missing: pass
         tr = Tr(fold_self(tokens(body)), consts, params)
         # untyped `let mut i = 0;` that is used as an index or a slice bound is a usize
         for mm in re.finditer(r"let\s+(?:mut\s+)?(\w+)\s*=\s*\d+\s*;", body):
-            if re.search(r"\[\s*(?:\d+\s*\.\.\s*)?%s\s*\]" % mm.group(1), body):
-                tr.untyped_index_vars.add(mm.group(1))
+            nm = mm.group(1)
+            bound = len(re.findall(r"\blet\s+(?:mut\s+)?%s\b" % nm, body)) + len(re.findall(r"\bfor\s+(?:\(\s*\w+\s*,\s*)?%s\b" % nm, body)) + len(re.findall(r"\bfor\s+\(\s*%s\s*," % nm, body)) + len(re.findall(r"\|[^|]*\b%s\b[^|]*\|" % nm, body))
+            if bound == 1 and re.search(r"\[\s*(?:\d+\s*\.\.\s*)?%s\s*\]" % nm, body) and not re.search(r"\b%s\s*(?:\*=|-=|/=|%%=|<<|>>)" % nm, body):
+                tr.untyped_index_vars.add(nm)
         stmts, tail = tr.block()
         if tr.peek() is not None:
             raise Unsupported("text after the function body")
@@ -411,9 +432,59 @@ def translate_fn(repo, rel, fname, const_names, self_struct=None, scalar=False):
     except Exception as ex:          # anything the parser did not foresee is outside the subset, never a crash of the run
         return bad("%s: translator error %s: %s" % (fname, type(ex).__name__, ex))
 
+SELF_FIELDS = {"MatrixCard": [("self_digit_count", "u8"), ("self_width", "u8"), ("self_height", "u8"), ("self_data", "arr")]}
+
 FUNCS = [("pinToBytes", "src/pin.rs", "pin_to_bytes", ["MAX_PIN_LENGTH", "MIN_PIN_LENGTH"]),
          ("remapPinGrid", "src/pin.rs", "remap_pin_grid", ["MAX_PIN_LENGTH", "MIN_PIN_LENGTH"]),
          ("generateCoordinates", "src/matrix_card.rs", "generate_coordinates", [])]
+
+def signature_of(repo, rel, fname, const_names):
+    """the parameter and return TYPES of a translated function, array lengths evaluated — nothing of them reaches the term (`-`, `/`, `%`
+    and widening casts carry no width, an array parameter's length is not in the body), but the theorems' hypotheses are exactly these
+    types, so they are a fact with its own obligation"""
+    try:
+        text = gc.load(repo, rel)
+        msk = gc.mask_literals(text)
+        ms = list(re.finditer(r"\bfn\s+%s\b\s*(?:<[^>(]*>)?\s*\(" % re.escape(fname), msk))
+        if len(ms) != 1:
+            return "%s: %d definitions" % (fname, len(ms))
+        sp = gc.body_span(text, ms[0].end() - 1)
+        if sp is None:
+            return "%s: no body" % fname
+        sig = re.sub(r"\s+", " ", text[ms[0].end():sp[0]]).strip()
+        c = gc.Consts()
+        for n in const_names:
+            try: c.scalar(text, n, rel)
+            except gc.Missing: pass
+        def norm(ty):
+            ty = ty.strip()
+            m = re.fullmatch(r"(&(?:mut )?)?\[u8; (.+)\]", ty)
+            if m:
+                try: return "%s[u8;%d]" % ((m.group(1) or "").replace(" ", ""), c.eval(m.group(2)))
+                except gc.Missing: return "%s[u8;?%s]" % (m.group(1) or "", m.group(2))
+            return ty.replace(" ", "")
+        m = re.fullmatch(r"(.*)\)\s*(?:->\s*(.+?))?\s*(?:where .*)?", sig, re.S)
+        if not m:
+            return "%s: %s" % (fname, sig)
+        params = []
+        depth = 0; cur = ""
+        for ch in m.group(1):
+            if ch in "[(<": depth += 1
+            if ch in "])>": depth -= 1
+            if ch == "," and depth == 0:
+                params.append(cur); cur = ""
+            else:
+                cur += ch
+        if cur.strip(): params.append(cur)
+        ps = []
+        for q in params:
+            q = q.strip()
+            if re.fullmatch(r"&\s*(mut\s+)?self", q): ps.append(q.replace(" ", "")); continue
+            mm = re.fullmatch(r"(?:mut\s+)?\w+\s*:\s*(.+)", q, re.S)
+            ps.append(norm(mm.group(1)) if mm else "?" + q)
+        return "%s: (%s) -> %s" % (fname, ", ".join(ps), norm(m.group(2) or "()"))
+    except Exception as ex:
+        return "%s: %s" % (fname, ex)
 
 def main(repo, outp):
     L = []
@@ -425,6 +496,14 @@ def main(repo, outp):
     body, res = translate_fn(repo, "src/matrix_card.rs", "get_matrix_card_size", [], scalar=True)
     if res.startswith("Result."): res = "Expr.unsupported \"no scalar result\""
     L.append("/-- `MatrixCard::get_matrix_card_size` in src/matrix_card.rs -/\ndef getMatrixCardSize : FnNat := ⟨%s,\n  %s⟩" % (body, res))
+    sp = [signature_of(repo, rel, fn, cn) for _, rel, fn, cn in FUNCS if rel == "src/pin.rs"]
+    sc = [signature_of(repo, rel, fn, cn) for _, rel, fn, cn in FUNCS if rel == "src/matrix_card.rs"] + [signature_of(repo, "src/matrix_card.rs", f, []) for f in ("get_number_at_coordinates", "get_matrix_card_size")]
+    try:
+        sc.append("MatrixCard: " + ", ".join("%s:%s" % (n[5:], t) for n, t in struct_fields(gc.load(repo, "src/matrix_card.rs"), "MatrixCard")))
+    except Exception as ex:
+        sc.append("MatrixCard: %s" % ex)
+    L.append("/-- parameter and return types of the translated functions of src/pin.rs (array lengths evaluated) -/\ndef signaturesPin : List String := [%s]" % ", ".join(lean_str(x) for x in sp))
+    L.append("/-- the same for src/matrix_card.rs, and the field types of `MatrixCard` -/\ndef signaturesCard : List String := [%s]" % ", ".join(lean_str(x) for x in sc))
     text = ("/- GENERATED by tools/gen_imp.py from the Rust sources on every run. Do not edit. -/\nimport WowSrp.Model.MiniImp\n"
             "namespace WowSrp.Gen.CodeImp\nopen WowSrp.MiniImp\n\n" + "\n\n".join(L) + "\n\nend WowSrp.Gen.CodeImp\n")
     old = open(outp).read() if os.path.exists(outp) else None
